@@ -8,7 +8,7 @@
    of generated moves from a consistent position (Props/C06.v).  Per run: the extracted move_fits is evaluated on every generated
    move of every stream position, and the engine's stored key is compared with its own from-scratch key after every move. *)
 From Coq Require Import NArith List.
-From JV Require Import Gen.Consts Model.Chess Model.Abs Proofs.MoveGenProofs Proofs.ZobristProofs Proofs.KeyProofs Proofs.GenProofs.
+From JV Require Import Gen.Consts Model.Chess Model.Abs Proofs.MoveGenProofs Proofs.ZobristProofs Proofs.KeyProofs Proofs.GenProofs Proofs.LegalInv Proofs.LegalInvB.
 Local Open Scope N_scope.
 
 Theorem C04_tables_match_compiled :
@@ -44,6 +44,11 @@ Proof. exact make_keyok_generated. Qed.
 Theorem C04_generated_moves_fit : forall g all m, cons g -> In m (generate_moves g all) -> move_fits g m = true.
 Proof. intros g all m C H. exact (generated_moves_fit g C all m H). Qed.
 
+(* after ANY sequence of accepted generated moves (and passes made while not in check) from a position satisfying the executable
+   invariant, the stored key equals the recomputed key *)
+Theorem C04_key_right_after_any_play : forall g0 g, legal_inv_b g0 = true -> chess_reach g0 g -> keyok g.
+Proof. intros g0 g LB R. destruct (reach_legal g0 g (legal_inv_b_sound g0 LB) R) as (_ & _ & _ & _ & K). exact K. Qed.
+
 Definition C04_incremental_full : Prop := forall g m g', wf g = true -> keyok g ->
   In m (legal_moves g) -> make_search_move g m = Made g' -> keyok g'.
 
@@ -54,3 +59,4 @@ Print Assumptions C04_null_move.
 Print Assumptions C04_incremental.
 Print Assumptions C04_incremental_generated.
 Print Assumptions C04_generated_moves_fit.
+Print Assumptions C04_key_right_after_any_play.
